@@ -19,6 +19,10 @@ MARKER_BASE = [
     "CCO.CCO.[Na].[Na]>>CC[O-].CC[O-].[Na+].[Na+]", "[Na].[Na].OCC.OCC>>CC[O-].CC[O-].[Na+].[Na+]", "OCCO.[K].[K]>>[O-]CC[O-].[K+].[K+]",
     "[Li].[Li].OCCCO>>[O-]CCC[O-].[Li+].[Li+]", "CCO.CO[Na]>>CC=O.CO[Na]", "[Na]OC.CCO>>CC=O.[Na]OC", "OC(C)C.CC(C)(C)O[K]>>CC(C)=O.CC(C)(C)O[K]",
     "CC(=O)C.[Na+].[H-]>>CC(O)C.[Na+]", "c1ccccc1O.[K].[K].Oc1ccccc1>>[O-]c1ccccc1.[O-]c1ccccc1.[K+].[K+]",
+    # given molecules written with a leading explicit hydrogen, in first and in later position (their text then contains the
+    # marker '.[H]' although no hydrogen atom was appended)
+    "[H]\\C(CC)=N/CC.Cc1ccc(cc1)S(=O)(=O)CN=C>>CCN1C=NC=C1CC.Cc1ccc(cc1)S(=O)=O", "CC(=O)Cl.[H]O[H]>>CC(=O)O", "[H]O[H].CC(=O)Cl>>CC(=O)O",
+    "CCBr.[H]N([H])[H]>>CCN", "[H]N([H])[H].CCBr>>CCN", "CC(=O)OC(C)=O.[H]OC>>COC(C)=O", "CS(=O)(=O)Cl.[H]OCC>>CCOS(C)(=O)=O",
 ]
 
 
